@@ -165,8 +165,8 @@ Definition legacy_find (root : trie) (method path : string)
       match literal_ops with
       | None => RNotFound
       | Some ops =>
-          if negb known_method then RPanicR "unsupported HTTP method"
-          else if str_in method ops then RPanicR "nil node dereference" else RMethodNotAllowed
+          (* Operations()[method]: an unknown method has no operation *)
+          if known_method && str_in method ops then RPanicR "nil node dereference" else RMethodNotAllowed
       end
   end.
 
